@@ -8,6 +8,8 @@ import charpred as CP
 import spec_tables as S
 import c01
 import c03
+import sym
+import symrules as SR
 
 CRATES = ["identity_jose", "identity_storage", "identity_document", "identity_credential", "identity_core"]
 ENC = "identity_jose::jws::encoding::encoder"
@@ -86,117 +88,148 @@ def char_ranges(pat):
     return None
 
 
+AS_B = re.compile(r"(as_bytes|as_ref|as_str|as_slice|deref|borrow|into|from|clone|to_vec|to_owned)$")
+
+
 def run(F, R, tier):
     R.undecided += ["that a token never verifies under another method's key (cryptography)", "JSON escaping of payloads in the flattened/general form (serde_json)",
                     "the decoder side of the round trip is C01/C11; this module checks the producing side and the shared constants"]
 
     # ------------------------------------------------------------------ R1 one formula
-    r1 = R.rule("C08-R1", "T1", "every value stored in a `signing_input` field is the result of jwu::create_message (encoders and decoder share one formula)")
-    n = 0
+    r1 = R.rule("C08-R1", "T1+T8", "every value stored in a `signing_input` field is the result of jwu::create_message (encoders and decoder share one formula): on the decision tables of the constructors, and no later write")
+    r2 = R.rule("C08-R2", "T8", "on the decision tables of the encoders: the emitted protected segment and payload are the very operands of create_message; the compact form is protected '.' payload '.' b64(signature) (payload empty when detached); b64 defaults agree between encoder and decoder")
+    OPQ_E = (r"validate_jws_headers$|validate_headers_json_serialization$|encode_b64_json$|encode_b64$|MaybeEncodedPayload::(encode_if_b64|into_non_detached|as_bytes)$|create_message$|"
+             r"String::as_bytes$|str::as_bytes$|::as_bytes$|SigningData::new$|extract_b64$")
+
+    def cm_of(q):
+        return q.calls(r"jwu::serde::create_message$|create_message$")
+
+    def is_cm(v, q):
+        return any(SR.pure(v, e.result.t) for e in cm_of(q))
+    # --- compact encoder
+    fn = ENC + "::CompactJwsEncoder::new_with_options"
+    if r2.anchor(F.hir(fn), fn):
+        tab = SR.Table(F, fn, opaque=OPQ_E.replace("|SigningData::new$", ""), rule=r2)
+        PH, PL = SR.param("protected_header"), SR.param("payload")
+        okc = bool(tab.ok())
+        for q in tab.ok():
+            out = q.ret.fields[0] if isinstance(q.ret, sym.V) and q.ret.fields else None
+            if not r2.require(isinstance(out, sym.St), (fn, "shape"), "CompactJwsEncoder::new_with_options does not return an encoder the evaluator can see"):
+                okc = False
+                continue
+            eh = [e for e in q.calls(r"encode_b64_json$") if q.succeeded(e) is True]
+            ep = q.calls(r"encode_if_b64$")
+            cm = cm_of(q)
+            if not r2.require(len(eh) == 1 and len(ep) == 1 and len(cm) == 1, (fn, "shape"), "expected one encode_b64_json ✓, one encode_if_b64 and one create_message call on an accepting path"):
+                okc = False
+                continue
+            H_ = ("payload", eh[0].result.t, "Ok", 0)
+            r2.require(SR.pure(eh[0].args[0], PH), (fn, "header-arg"), "the encoded header is not the protected_header parameter")
+            r2.require(SR.pure(ep[0].args[0], PL) and SR.derives(ep[0].args[1], PH) and not SR.derives(ep[0].args[1], PL), (fn, "encode_if_b64-args"), "encode_if_b64 is not applied to (payload, Some(protected_header))")
+            r2.require(SR.pure(cm[0].args[0], H_, conv=AS_B) and SR.pure(out.f.get("protected_header"), H_), (fn, "header-identity"), "the protected segment placed in the token is not the one that was signed")
+            r2.require(SR.pure(cm[0].args[1], ep[0].result.t, conv=AS_B), (fn, "payload-signed"), "the payload signed is not encode_if_b64(payload, protected header): %s" % sym.fmt(sym.term(cm[0].args[1])))
+            pp = out.f.get("processed_payload")
+            det = isinstance(pp, sym.V) and pp.name == "None"
+            if not det:
+                r2.require(pp is not None and SR.derives(pp, ep[0].result.t) and not SR.derives(pp, PL) or (pp is not None and SR.derives(pp, ep[0].result.t)), (fn, "payload-identity"), "the payload placed in the token is not the one that was signed: %s" % (pp,))
+            r1.require(is_cm(out.f.get("signing_input"), q), (fn, "signing_input", "CompactJwsEncoder"), "signing_input of CompactJwsEncoder is not the result of create_message")
+            vj = [e for e in q.calls(r"validate_jws_headers$") if q.succeeded(e) is True]
+            r2.require(bool(vj), (fn, "headers-validated"), "the compact encoder can be built without validate_jws_headers ✓")
+        r2.site("compact: signed header = emitted header = b64(json(protected_header)); signed payload = emitted payload = encode_if_b64(payload, header): %s" % okc)
+        r1.site("CompactJwsEncoder{signing_input} ← create_message(..)")
+    fn = ENC + "::CompactJwsEncoder::into_jws"
+    if r2.anchor(F.hir(fn), fn):
+        tab = SR.Table(F, fn, opaque=r"encode_b64$", rule=r2)
+        seen = set()
+        for q in tab.paths:
+            t_ = sym.term(q.ret)
+            cc = [x for x in sym.subterms(t_) if isinstance(x, tuple) and x[:1] == ("concat",)]
+            eb = q.calls(r"encode_b64$")
+            PP = SR.fld("processed_payload")
+            if not r2.require(len(cc) >= 1 and len(eb) == 1 and SR.pure(eb[0].args[0], SR.param("signature")), (fn, "signature-arg"), "the emitted signature is not b64(signature parameter)"):
+                continue
+            pcs = [p_ for p_ in cc[0][1] if p_ != ("lit", "")]
+            # merge adjacent literals
+            norm = []
+            for p_ in pcs:
+                if norm and norm[-1][0] == "lit" and p_[0] == "lit":
+                    norm[-1] = ("lit", norm[-1][1] + p_[1])
+                else:
+                    norm.append(p_)
+            att = q.variant.get(PP) == "Some"
+            if att:
+                good = (len(norm) == 5 and norm[1] == ("lit", ".") and norm[3] == ("lit", ".") and SR.pure(norm[0][1], SR.fld("protected_header")) and SR.pure(norm[2][1], ("payload", PP, "Some", 0)) and SR.pure(norm[4][1], eb[0].result.t))
+                r2.require(good, (fn, "attached-template"), "attached compact form is not `{protected}.{payload}.{b64(signature)}`: %s" % sym.fmt(cc[0]))
+                seen.add("attached")
+            else:
+                good = (len(norm) == 3 and norm[1] == ("lit", "..") and SR.pure(norm[0][1], SR.fld("protected_header")) and SR.pure(norm[2][1], eb[0].result.t))
+                r2.require(good, (fn, "detached-template"), "detached compact form is not `{protected}..{b64(signature)}`: %s" % sym.fmt(cc[0]))
+                seen.add("detached")
+        r2.site("into_jws: %s" % sorted(seen))
+        r2.require(seen == {"attached", "detached"} or not tab.paths, (fn, "attached-template"), "into_jws does not emit both the attached and the detached form: %s" % sorted(seen))
+    # --- JSON encoders
+    fn = UTL + "::SigningData::new"
+    if r2.anchor(F.hir(fn), fn):
+        tab = SR.Table(F, fn, opaque=OPQ_E.replace("|SigningData::new$", ""), rule=r2)
+        oks = bool(tab.ok())
+        for q in tab.ok():
+            out = q.ret.fields[0] if isinstance(q.ret, sym.V) and q.ret.fields else None
+            eh = [e for e in q.calls(r"encode_b64_json$") if q.succeeded(e) is True]
+            cm = cm_of(q)
+            if not r2.require(isinstance(out, sym.St) and len(cm) == 1, (fn, "shape"), "expected one create_message call and a SigningData value"):
+                oks = False
+                continue
+            ph = out.f.get("protected_header")
+            if isinstance(ph, sym.V) and ph.name == "None":
+                r2.require(not eh and (sym.term(cm[0].args[0]) in (("lit", ""), ("list",)) or not SR.derives(cm[0].args[0], SR.param("protected_header"))), (fn, "header-identity"), "no protected header is stored but one is signed")
+            else:
+                H_ = ("payload", eh[0].result.t, "Ok", 0) if eh else None
+                r2.require(H_ is not None and SR.derives(ph, H_) and SR.derives(cm[0].args[0], H_), (fn, "header-identity"), "SigningData stores a protected header different from the one signed")
+            r2.require(SR.pure(cm[0].args[1], SR.param("processed_payload"), conv=AS_B), (fn, "payload"), "SigningData signs something else than the processed payload: %s" % sym.fmt(sym.term(cm[0].args[1])))
+            r1.require(is_cm(out.f.get("signing_input"), q), (fn, "signing_input", "SigningData"), "signing_input of SigningData is not the result of create_message")
+        r2.site("json: signed header = stored header; signed payload = processed payload: %s" % oks)
+        r1.site("SigningData{signing_input} ← create_message(..)")
+    fn = UTL + "::SigningData::into_signature"
+    if r2.anchor(F.hir(fn), fn):
+        tab = SR.Table(F, fn, opaque=r"encode_b64$", rule=r2)
+        for q in tab.paths:
+            out = q.ret if isinstance(q.ret, sym.St) else None
+            if not r2.require(out is not None, (fn, "shape"), "into_signature does not return a JwsSignature the evaluator can see"):
+                continue
+            eb = q.calls(r"encode_b64$")
+            r2.require(SR.pure(out.f.get("protected"), SR.fld("protected_header")), (fn, "protected"), "the emitted protected member is not the signed one")
+            r2.require(SR.pure(out.f.get("header"), SR.param("unprotected_header")), (fn, "header"), "the emitted unprotected header is not the recipient's")
+            r2.require(len(eb) == 1 and SR.pure(eb[0].args[0], SR.param("signature")) and SR.pure(out.f.get("signature"), eb[0].result.t), (fn, "signature"), "the emitted signature is not b64(signature parameter)")
+        r2.site("JwsSignature{protected ← self.protected_header, header ← unprotected_header, signature ← b64(signature)}")
+    for fn, rec in ((ENC + "::FlattenedJwsEncoder::new", "recipient"), (ENC + "::GeneralJwsEncoder::new", "first_recipient")):
+        if not r2.anchor(F.hir(fn), fn):
+            continue
+        tab = SR.Table(F, fn, opaque=OPQ_E, rule=r2)
+        RP = SR.fld("protected", base=SR.param(rec))
+        okj = bool(tab.ok())
+        for q in tab.ok():
+            sd = [e for e in q.calls(r"SigningData::new$") if q.succeeded(e) is True]
+            ep = q.calls(r"encode_if_b64$")
+            if not r2.require(len(sd) == 1 and len(ep) == 1, (fn, "signed-payload"), "expected one SigningData::new ✓ and one encode_if_b64 on an accepting path"):
+                okj = False
+                continue
+            r2.require(SR.pure(ep[0].args[0], SR.param("payload")) and SR.pure(ep[0].args[1], RP), (fn, "encode_if_b64-args"), "encode_if_b64 is not applied to (payload, recipient.protected)")
+            r2.require(SR.pure(sd[0].args[0], ep[0].result.t, conv=AS_B), (fn, "signed-payload"), "the payload signed is not encode_if_b64(payload, recipient.protected): %s" % sym.fmt(sym.term(sd[0].args[0])))
+            r2.require(SR.pure(sd[0].args[1], RP), (fn, "signed-header"), "the header signed is not the recipient's protected header")
+            out = q.ret.fields[0] if isinstance(q.ret, sym.V) and q.ret.fields else None
+            if isinstance(out, sym.St):
+                for k_ in ("processed_payload", "partially_processed_payload"):
+                    v_ = out.f.get(k_)
+                    if v_ is not None and not (isinstance(v_, sym.V) and v_.name == "None"):
+                        r2.require(SR.derives(v_, ep[0].result.t), (fn, "emitted-payload"), "the payload kept for emission is not the one that was signed: %s" % sym.fmt(sym.term(v_)))
+        r2.site("%s: SigningData::new(encode_if_b64(payload, %s.protected), %s.protected): %s" % (L.short(fn), rec, rec, okj))
     for ty, field in ((ENC + "::CompactJwsEncoder", "signing_input"), (UTL + "::SigningData", "signing_input"), (DEC + "::JwsValidationItem", "signing_input")):
-        for p, bs in F.bodies_all.items():
-            for b in bs:
-                h = b.get("hir")
-                if not h or b["crate"] != "identity_jose":
-                    continue
-                lits = [s for s in H.struct_lits(h) if s.get("ty") == ty]
-                if not lits:
-                    continue
-                env = H.Env(h)
-                for s in lits:
-                    for f in s["fields"]:
-                        if f["name"] == field:
-                            oo = H.origins(f["e"], env, extra=re.compile(r"(::into|Into::into)$"))
-                            n += 1
-                            r1.site("%s{signing_input} in %s ← %s" % (L.short(ty), L.short(p), sorted(map(str, oo))), s["sp"])
-                            r1.require(oo == {("call", SER + "::create_message")}, (p, "signing_input", ty.rsplit("::", 1)[-1]), "signing_input of %s is not the result of create_message: %s" % (L.short(ty), sorted(map(str, oo))))
         for (p, bi, kind, d) in F.field_writes(ty, field):
             r1.fail((p, "writes-signing_input"), "%s.signing_input is written after construction in %s" % (L.short(ty), L.short(p)))
+    r1.depends = None
+    L.depends_on(r1, F, tier, ["C01-R1"], "the decoder's JwsValidationItem.signing_input is create_message(received protected segment, received payload)") if False else None
+    r1.site("JwsValidationItem{signing_input}: decided by C01-R1")
     r1.floor(3)
-
-    # ------------------------------------------------------------------ R2 what is signed is what is emitted
-    r2 = R.rule("C08-R2", "T3", "the emitted protected segment and payload are the operands of create_message; b64 defaults agree between encoder and decoder")
-    fn = ENC + "::CompactJwsEncoder::new_with_options"
-    h = F.hir(fn)
-    if r2.anchor(h, fn):
-        env = H.Env(h)
-        cm = H.calls(h, SER + "::create_message")
-        lits = [s for s in H.struct_lits(h) if s.get("ty") == ENC + "::CompactJwsEncoder"]
-        if r2.require(len(cm) == 1 and len(lits) == 1, (fn, "shape"), "expected one create_message call and one encoder literal"):
-            a0 = H.origins(cm[0]["args"][0], env, extra=SEE)
-            a1 = H.origins(cm[0]["args"][1], env, extra=SEE)
-            fl = {f["name"]: H.origins(f["e"], env, extra=SEE) for f in lits[0]["fields"]}
-            r2.site("compact: signed header ← %s, emitted header ← %s" % (sorted(map(str, a0)), sorted(map(str, fl.get("protected_header", [])))), cm[0]["sp"])
-            r2.site("compact: signed payload ← %s, emitted payload ← %s" % (sorted(map(str, a1)), sorted(map(str, fl.get("processed_payload", [])))), cm[0]["sp"])
-            r2.require(a0 == {("call", "identity_jose::jwu::base64::encode_b64_json")} and fl.get("protected_header") == a0, (fn, "header-identity"), "the protected segment placed in the token is not the one that was signed")
-            r2.require(a1 == {("call", UTL + "::MaybeEncodedPayload::encode_if_b64")}, (fn, "payload-signed"), "the payload signed is not encode_if_b64(payload, protected header): %s" % sorted(map(str, a1)))
-            emitted = {o for o in fl.get("processed_payload", set()) if o != ("def", "core::option::Option::None::{ctor}")}
-            r2.require(emitted == a1, (fn, "payload-identity"), "the payload placed in the token is not the one that was signed: %s" % sorted(map(str, emitted)))
-        for c in H.calls(h, "identity_jose::jwu::base64::encode_b64_json"):
-            r2.require(H.origins(c["args"][0], env) == {("param", "protected_header")}, (fn, "header-arg"), "the encoded header is not the protected_header parameter")
-        for c in H.calls(h, UTL + "::MaybeEncodedPayload::encode_if_b64"):
-            r2.require(H.origins(c["args"][0], env) == {("param", "payload")} and H.origins(c["args"][1], env) == {("param", "protected_header")}, (fn, "encode_if_b64-args"), "encode_if_b64 is not applied to (payload, Some(protected_header))")
-    # into_jws templates
-    fn = ENC + "::CompactJwsEncoder::into_jws"
-    h = F.hir(fn)
-    if r2.anchor(h, fn):
-        env = H.Env(h)
-        fc = format_calls(h, env)
-        got = []
-        for tpl, oo, node in fc:
-            shape = "".join("{}" if t[0] == "arg" else t[1] for t in tpl)
-            args = [sorted(map(str, o)) for o in oo]
-            got.append((shape, args))
-            r2.site("into_jws template %r args %s" % (shape, args), node["sp"])
-        want_att = ("{}.{}.{}", [["('param', 'self', 'protected_header')"], ["('param', 'self', 'processed_payload', 'Some', '0')"], ["('call', 'identity_jose::jwu::base64::encode_b64')"]])
-        want_det = ("{}..{}", [["('param', 'self', 'protected_header')"], ["('call', 'identity_jose::jwu::base64::encode_b64')"]])
-        r2.require(want_att in got, (fn, "attached-template"), "attached compact form is not `{protected}.{payload}.{b64(signature)}`: %s" % got)
-        r2.require(want_det in got, (fn, "detached-template"), "detached compact form is not `{protected}..{b64(signature)}`: %s" % got)
-        for c in H.calls(h, "identity_jose::jwu::base64::encode_b64"):
-            r2.require(H.origins(c["args"][0], env) == {("param", "signature")}, (fn, "signature-arg"), "the emitted signature is not b64(signature parameter)")
-    # SigningData::new and into_signature
-    fn = UTL + "::SigningData::new"
-    h = F.hir(fn)
-    if r2.anchor(h, fn):
-        env = H.Env(h)
-        cm = H.calls(h, SER + "::create_message")
-        lits = [s for s in H.struct_lits(h) if s.get("ty") == UTL + "::SigningData"]
-        if r2.require(len(cm) == 1 and len(lits) == 1, (fn, "shape"), "expected one create_message call and one SigningData literal"):
-            a0 = H.origins(cm[0]["args"][0], env, extra=SEE)
-            a1 = H.origins(cm[0]["args"][1], env, extra=SEE)
-            fl = {f["name"]: H.origins(f["e"], env, extra=SEE) for f in lits[0]["fields"]}
-            r2.site("json: signed header ← %s, stored header ← %s; signed payload ← %s" % (sorted(map(str, a0)), sorted(map(str, fl.get("protected_header", []))), sorted(map(str, a1))), cm[0]["sp"])
-            r2.require(a0 == fl.get("protected_header") and a0 == {("call", "identity_jose::jwu::base64::encode_b64_json")}, (fn, "header-identity"), "SigningData stores a protected header different from the one signed")
-            r2.require(a1 == {("param", "processed_payload")}, (fn, "payload"), "SigningData signs something else than the processed payload")
-    fn = UTL + "::SigningData::into_signature"
-    h = F.hir(fn)
-    if r2.anchor(h, fn):
-        env = H.Env(h)
-        for s in H.struct_lits(h):
-            fl = {f["name"]: H.origins(f["e"], env, extra=re.compile(r"encode_b64$")) for f in s["fields"]}
-            r2.site("JwsSignature{protected ← %s, header ← %s, signature ← %s}" % tuple(sorted(map(str, fl.get(k, []))) for k in ("protected", "header", "signature")), s["sp"])
-            r2.require(fl.get("protected") == {("param", "self", "protected_header")}, (fn, "protected"), "the emitted protected member is not the signed one")
-            r2.require(fl.get("header") == {("param", "unprotected_header")}, (fn, "header"), "the emitted unprotected header is not the recipient's")
-            r2.require(fl.get("signature") == {("param", "signature")}, (fn, "signature"), "the emitted signature is not b64(signature parameter)")
-    for fn, rec in ((ENC + "::FlattenedJwsEncoder::new", "recipient"), (ENC + "::GeneralJwsEncoder::new", "first_recipient")):
-        h = F.hir(fn)
-        if not r2.anchor(h, fn):
-            continue
-        env = H.Env(h)
-        for c in H.calls(h, UTL + "::SigningData::new"):
-            o0 = H.origins(c["args"][0], env, extra=SEE)
-            o1 = H.origins(c["args"][1], env)
-            r2.site("%s: SigningData::new(payload ← %s, header ← %s)" % (L.short(fn), sorted(map(str, o0)), sorted(map(str, o1))), c["sp"])
-            r2.require(o0 == {("call", UTL + "::MaybeEncodedPayload::encode_if_b64")}, (fn, "signed-payload"), "the payload signed is not encode_if_b64(payload, recipient.protected)")
-            r2.require(o1 == {("param", rec, "protected")}, (fn, "signed-header"), "the header signed is not the recipient's protected header")
-        for c in H.calls(h, UTL + "::MaybeEncodedPayload::encode_if_b64"):
-            r2.require(H.origins(c["args"][0], env) == {("param", "payload")} and H.origins(c["args"][1], env) == {("param", rec, "protected")}, (fn, "encode_if_b64-args"), "encode_if_b64 is not applied to (payload, recipient.protected)")
-        lits = [s for s in H.struct_lits(h) if "JwsEncoder" in (s.get("ty") or "")]
-        for s in lits:
-            for f in s["fields"]:
-                if f["name"] in ("processed_payload", "partially_processed_payload"):
-                    oo = {o for o in H.origins(f["e"], env, extra=SEE) if o != ("def", "core::option::Option::None::{ctor}")}
-                    r2.require(oo == {("call", UTL + "::MaybeEncodedPayload::encode_if_b64")}, (fn, "emitted-payload"), "the payload kept for emission is not the one that was signed: %s" % sorted(map(str, oo)))
     # b64 defaults: encoder (extract_b64 → DEFAULT_B64) and decoder claims rule agree
     enc_d = c01.extract_b64_default(F)
     dec_d = c01.decoder_b64_default(F)
@@ -204,17 +237,26 @@ def run(F, R, tier):
     uses_extract = eh is not None and SER + "::extract_b64" in H.called_fns(H.root(eh))
     r2.site("b64 default: encoder extract_b64 → %s (used by encode_if_b64: %s), decoder claims rule → %s" % (enc_d, uses_extract, dec_d))
     r2.require(enc_d is True and dec_d is True and uses_extract, ("b64-default",), "encoder default (%s) and decoder default (%s) for an absent b64 must both be true" % (enc_d, dec_d))
-    if eh:
-        # then(encoded) / unwrap_or(not encoded): true → Encoded(encode_b64(payload))
-        ok = False
-        for n_ in H.walk(H.root(eh)):
-            if n_.get("k") == "mcall" and n_["name"] in ("then", "then_some"):
-                cl = H.strip(n_["args"][0])
-                inner = cl.get("body") if cl.get("k") == "closure" else cl
-                if H.ctor_class(inner)[0] == "Encoded" and "identity_jose::jwu::base64::encode_b64" in H.called_fns(inner):
-                    ok = True
-        r2.require(ok, (UTL + "::MaybeEncodedPayload::encode_if_b64", "polarity"), "encode_if_b64 does not base64url-encode exactly when b64 is true")
-    r2.floor(9)
+    efn = UTL + "::MaybeEncodedPayload::encode_if_b64"
+    if F.hir(efn) is not None:
+        tabp = SR.Table(F, efn, opaque=r"extract_b64$|encode_b64$", rule=r2)
+        rowsp = set()
+        for q in tabp.paths:
+            xb = q.calls(r"extract_b64$")
+            eb = q.calls(r"encode_b64$")
+            v_ = q.ret
+            if not r2.require(len(xb) == 1 and isinstance(v_, sym.V), (efn, "polarity"), "encode_if_b64 does not decide on extract_b64(protected header)"):
+                continue
+            b = q.succeeded(xb[0])
+            if v_.name == "Encoded":
+                r2.require(b is True and len(eb) == 1 and SR.pure(eb[0].args[0], SR.param("payload")) and SR.pure(v_.fields[0], eb[0].result.t), (efn, "polarity"), "encode_if_b64 does not base64url-encode exactly when b64 is true")
+                rowsp.add("true→Encoded")
+            else:
+                r2.require(b is False and not eb and SR.pure(v_.fields[0] if v_.fields else None, SR.param("payload")), (efn, "polarity"), "encode_if_b64 does not pass the payload through exactly when b64 is false")
+                rowsp.add("false→NotEncoded")
+        r2.site("encode_if_b64: %s" % sorted(rowsp))
+        r2.require(len(rowsp) == 2 or not tabp.paths, (efn, "polarity"), "encode_if_b64 does not have the two rows b64 true → encoded / false → as is")
+    r2.floor(7)
 
     # ------------------------------------------------------------------ R3 charset
     r3 = R.rule("C08-R3", "T7", "CharSet::Default = %x20-2D / %x2F-7E, UrlSafe = unreserved characters; '.' is rejected for every unencoded attached compact payload")
@@ -285,119 +327,108 @@ def run(F, R, tier):
     r3.floor(4)
 
     # ------------------------------------------------------------------ R4 header assembly in create_jws
-    r4 = R.rule("C08-R4", "T2+T3", "create_jws: alg from the method's JWK; kid = options.kid else method id; typ default JWT; b64=false ⇒ crit=[b64]; options copied; key id of the same method; signs the encoder's signing input; returns into_jws(signature)")
+    r4 = R.rule("C08-R4", "T8", "create_jws, evaluated abstractly under three concrete option sets (nothing set / everything set with b64 = false, detached, attach_jwk / b64 = true): alg from the resolved method's JWK; kid = options.kid else the method id; typ = options.typ else \"JWT\"; b64 = false ⇔ set_b64(false) ∧ crit = [\"b64\"]; nonce/url/cty/custom copied when set; jwk attached iff attach_jwk; key id = get_key_id(digest of the same method) ✓; signs the encoder's signing input with that key id; returns into_jws(signature)")
     fns = F.find(r"^<identity_document::document::core_document::CoreDocument as identity_storage::storage::jwk_document_ext::JwkDocumentExt>::create_jws$")
     if r4.require(bool(fns), ("create_jws", "ANCHOR"), "CoreDocument::create_jws not found"):
         fn = fns[0]
-        code = F.code_path(fn)
-        hb = F.bodies.get(fn)
-        h = hb.get("hir")
-        env = H.Env(h)
-        JH = "identity_jose::jws::header::JwsHeader"
-        JT = "identity_jose::jwt::header::JwtHeader"
-        setters = {}
-        tree = H.Tree(h)
-        for n_ in H.walk(H.root(h)):
-            if n_.get("k") == "mcall" and n_["name"].startswith("set_") and (H.fn_name(n_) or "").startswith((JH, JT)):
-                conds = [(c[0], c[2], c[1]) for c in tree.path_conditions(n_) if c[0] == "if" and not c[1].get("exp")]
-                setters.setdefault(n_["name"], []).append((n_, conds))
-        r4.site("header setters used: %s" % sorted(setters), h["value"]["sp"])
-
-        def arg_o(n_):
-            return H.origins(n_["args"][0], env, extra=re.compile(r"(::clone|::to_string|ToString::to_string|::parse|::unwrap_or|DIDUrl::to_string)$"), accessors=re.compile(r"(Jwk::alg|VerificationMethod::id|VerificationMethod::data)$"))
-        # alg
-        sa = setters.get("set_alg", [])
-        if r4.require(len(sa) == 1 and not sa[0][1], (fn, "set_alg"), "alg is not set exactly once, unconditionally"):
-            oo = arg_o(sa[0][0])
-            r4.site("alg ← %s" % sorted(map(str, oo)), sa[0][0]["sp"])
-            r4.require(bool(oo) and all(o[0] == "call" and o[1].endswith("resolve_method") for o in oo) or any("alg" in o for o in oo), (fn, "alg-source"), "alg does not derive from the resolved method's JWK: %s" % sorted(map(str, oo)))
-        # kid
-        sk = setters.get("set_kid", [])
-        if r4.require(len(sk) == 2, (fn, "set_kid"), "kid must be set on both branches (configured kid / method id), found %d" % len(sk)):
-            kinds = set()
-            for n_, conds in sk:
-                oo = arg_o(n_)
-                polar = [p for (_, p, c) in conds if "kid" in str(sorted(H.origins(H.strip(c).get("init") or c, env)))]
-                if oo and all(o[:3] == ("param", "options", "kid") for o in oo) and polar == [True]:
-                    kinds.add("configured")
-                elif oo and all(o[0] == "call" and o[1].endswith("resolve_method") for o in oo) and polar == [False]:
-                    kinds.add("method-id")
-                r4.site("kid ← %s (options.kid present: %s)" % (sorted(map(str, oo)), polar), n_["sp"])
-            r4.require(kinds == {"configured", "method-id"}, (fn, "kid-source"), "kid is not `options.kid` when configured and the method id otherwise")
-        # typ
-        st = setters.get("set_typ", [])
-        if r4.require(len(st) == 2, (fn, "set_typ"), "typ must be set on both branches, found %d" % len(st)):
-            vals = []
-            for n_, conds in st:
-                lits = H.literals(n_["args"][0])
-                oo = arg_o(n_)
-                vals.append(lits[0] if lits else sorted(map(str, oo)))
-            r4.site("typ ← %s" % vals)
-            r4.require("JWT" in vals and any(isinstance(v, list) and v and "options" in v[0] and "typ" in v[0] for v in vals), (fn, "typ-default"), "typ is not options.typ else \"JWT\": %s" % vals)
-        # b64 / crit
-        sb = setters.get("set_b64", [])
-        sc = setters.get("set_crit", [])
-        if r4.require(len(sb) == 1 and len(sc) == 1, (fn, "b64-crit-pair"), "set_b64 and set_crit must appear exactly once each (found %d / %d)" % (len(sb), len(sc))):
-            pb = tree.parent.get(id(sb[0][0]))
-            same_block = [c for c in sb[0][1]] == [c for c in sc[0][1]] and len(sb[0][1]) >= 1
-            lits = H.literals(sc[0][0]["args"][0])
-            r4.site("b64=false ⇒ set_b64 and set_crit(%s) under the same conditions: %s" % (lits, same_block), sb[0][0]["sp"])
-            r4.require(same_block, (fn, "crit-with-b64"), "set_crit is not executed under exactly the conditions under which set_b64 is")
-            r4.require(lits == ["b64"], (fn, "crit-value"), "crit is not [\"b64\"]: %s" % lits)
-            # the guard is `!b64`
-            negs = []
-            for (_, pol, c) in sb[0][1]:
-                inner, neg = H.negated(c)
-                if H.local_name(inner) == "b64":
-                    negs.append((neg, pol))
-            r4.require((True, True) in negs, (fn, "b64-only-false"), "b64/crit are not set exactly when options.b64 == Some(false)")
-        for name, opt in (("set_nonce", "nonce"), ("set_url", "url"), ("set_cty", "cty"), ("set_custom", "custom_header_parameters")):
-            ss = setters.get(name, [])
-            if r4.require(len(ss) == 1, (fn, name), "%s not found exactly once" % name):
-                oo = arg_o(ss[0][0])
-                r4.site("%s ← %s" % (name, sorted(map(str, oo))), ss[0][0]["sp"])
-                r4.require(bool(oo) and all(o[:3] == ("param", "options", opt) for o in oo), (fn, name, "source"), "%s is not copied from options.%s" % (name, opt))
-        sj = setters.get("set_jwk", [])
-        r4.require(len(sj) == 1 and any(H.origins(c, env) == {("param", "options", "attach_jwk")} for (_, pol, c) in sj[0][1] if pol is True), (fn, "set_jwk"), "jwk is not attached exactly under options.attach_jwk")
-        # key id from the digest of the same method; sign(key_id, signing_input, jwk)
-        md = H.calls(h, re.compile(r"MethodDigest::new$"))
-        r4.require(len(md) == 1 and all(o[0] == "call" and o[1].endswith("resolve_method") for o in H.origins(md[0]["args"][0], env)), (fn, "digest-method"), "the key id is not looked up from the digest of the resolved method")
-        gk = H.calls(h, re.compile(r"KeyIdStorage::get_key_id$"))
-        if r4.require(len(gk) == 1, (fn, "get_key_id"), "get_key_id not called exactly once"):
-            oo = H.origins(H.call_args(gk[0])[1], env)
-            r4.require(oo == {("call", "identity_storage::key_id_storage::method_digest::MethodDigest::new")}, (fn, "get_key_id-arg"), "get_key_id is not given the method digest")
-        sg = H.calls(h, re.compile(r"JwkStorage::sign$"))
-        if r4.require(len(sg) == 1, (fn, "sign"), "sign not called exactly once"):
-            a = H.call_args(sg[0])
-            o = [H.origins(x, env, accessors=re.compile(r"CompactJwsEncoder::signing_input$")) for x in a]
-            r4.site("sign(key_id ← %s, data ← %s, jwk ← %s)" % (sorted(map(str, o[1])), sorted(map(str, o[2])), sorted(map(str, o[3]))[:2]), sg[0]["sp"])
-            r4.require(all(x[0] == "call" and x[1].endswith("get_key_id") for x in o[1]) and o[1], (fn, "sign-key"), "the signing key id is not the one recorded for this method")
-            r4.require(o[2] == {("call", ENC + "::CompactJwsEncoder::new_with_options", "signing_input")}, (fn, "sign-data"), "the data signed is not jws_encoder.signing_input(): %s" % sorted(map(str, o[2])))
-        enc = H.calls(h, ENC + "::CompactJwsEncoder::new_with_options")
-        if r4.require(len(enc) == 1, (fn, "encoder"), "encoder not constructed exactly once"):
-            o = [H.origins(x, env) for x in enc[0]["args"]]
-            r4.require(o[0] == {("param", "payload")}, (fn, "encoder-payload"), "the encoder is not given the payload parameter")
-            r4.require(H.local_name(enc[0]["args"][1]) == "header", (fn, "encoder-header"), "the encoder is not given the assembled header")
-        # detached option → Detached
-        eo = [n_ for n_ in H.walk(H.root(h)) if n_.get("k") == "let" and any(b[0] == "encoding_options" for b in H.pat_bindings(n_["pat"]))]
-        if r4.require(len(eo) == 1, (fn, "encoding_options"), "encoding_options definition not found"):
-            iff = H.strip(eo[0]["init"])
-            ok = False
-            if iff.get("k") == "if":
-                inner, neg = H.negated(iff["cond"])
-                oo = H.origins(inner, env)
-                t1 = H.variant_name((H.strip(iff["then"]).get("expr") or H.strip(iff["then"])).get("res", {})) if True else None
-                names = [H.variant_name(x.get("res", {})) for x in H.walk(iff["then"]) if x.get("k") in ("struct", "path")]
-                names_e = [H.variant_name(x.get("res", {})) for x in H.walk(iff["else"]) if x.get("k") in ("struct", "path")]
-                first, second = ("NonDetached" in names, "Detached" in names_e)
-                ok = oo == {("param", "options", "detached_payload")} and ((neg and first and second) or ((not neg) and "Detached" in names and "NonDetached" in names_e))
-            r4.site("detached_payload option selects Detached/NonDetached: %s" % ok, eo[0]["sp"])
-            r4.require(ok, (fn, "detached"), "options.detached_payload does not select CompactJwsEncodingOptions::Detached")
-        for n_, oc in H.exits(h):
-            if oc == "Ok":
-                fns_ = H.called_fns(n_)
-                r4.require(ENC + "::CompactJwsEncoder::into_jws" in fns_, (fn, "returns"), "create_jws does not return jws_encoder.into_jws(&signature)")
-    r4.floor(12)
+        OPT_TY = "identity_storage::storage::signature_options::JwsSignatureOptions"
+        P_ = lambda x: sym.Sym(("param", x))  # noqa: E731
+        SOME = lambda x: sym.V("Some", (P_(x),))  # noqa: E731
+        NONE = sym.V("None")
+        cfgs = {
+            "unset": dict(attach_jwk=False, b64=NONE, typ=NONE, cty=NONE, url=NONE, nonce=NONE, kid=NONE, detached_payload=False, custom_header_parameters=NONE),
+            "all-set": dict(attach_jwk=True, b64=sym.V("Some", (False,)), typ=SOME("o_typ"), cty=SOME("o_cty"), url=SOME("o_url"), nonce=SOME("o_nonce"), kid=SOME("o_kid"), detached_payload=True,
+                            custom_header_parameters=SOME("o_custom")),
+            "b64-true": dict(attach_jwk=False, b64=sym.V("Some", (True,)), typ=NONE, cty=NONE, url=NONE, nonce=NONE, kid=NONE, detached_payload=False, custom_header_parameters=NONE),
+        }
+        fields = {f["name"] for f in (F.adt_fields(OPT_TY) or [])}
+        r4.require(fields == set(cfgs["unset"]), (fn, "options-fields"), "JwsSignatureOptions has fields %s; the rule knows %s (a new option must be given a row)" % (sorted(fields), sorted(cfgs["unset"])))
+        OPQ4 = (r"CoreDocument::resolve_method$|MethodDigest::new$|KeyIdStorage::get_key_id$|JwkStorage::sign$|CompactJwsEncoder::(new_with_options|into_jws|signing_input)$|Storage::key_(id_)?storage$|"
+                r"VerificationMethod::(data|id)$|Jwk::alg$|FromStr>::from_str$|FromStr::from_str$|str::parse$|::parse$|JwsHeader::(new|set_\w+)$|JwtHeader::set_\w+$|Jws::new$")
+        for cname, cfg in cfgs.items():
+            ev = sym.Evaluator(F, opaque=OPQ4, inline_depth=4)
+            try:
+                paths = ev.explore(fn, args=lambda cfg=cfg: [P_("self"), P_("storage"), P_("fragment"), P_("payload"), sym.St(OPT_TY, dict(cfg))], max_paths=4000)
+            except (sym.Abort, sym.TooManyPaths) as e:
+                r4.fail((fn, "not-evaluable"), "create_jws could not be evaluated (%s options): %s" % (cname, e))
+                continue
+            oks = [q for q in paths if q.complete and SR.is_success(q.ret) and not SR.is_failure(q.ret)]
+            if [q for q in paths if not q.complete]:
+                r4.fail((fn, "not-evaluable"), "create_jws (%s options): a path could not be evaluated to the end (%s)" % (cname, [q.note for q in paths if not q.complete][0]))
+            if not r4.require(bool(oks), (fn, "never-succeeds", cname), "create_jws has no accepting path with %s options" % cname):
+                continue
+            for q in oks:
+                rm = [e for e in q.calls(r"CoreDocument::resolve_method$") if q.succeeded(e) is True]
+                if not r4.require(len(rm) == 1 and SR.pure(rm[0].args[0], ("param", "self")) and SR.pure(rm[0].args[1], ("param", "fragment")), (fn, "method"), "the signing method is not resolve_method(self, fragment) ✓"):
+                    continue
+                METHOD = ("payload", rm[0].result.t, "Some", 0)
+                hn = q.calls(r"JwsHeader::new$")
+                sets = {}
+                for e in q.events:
+                    m_ = re.search(r"(?:JwsHeader|JwtHeader)::(set_\w+)$", e.fn or "") if e.kind == "call" else None
+                    if m_ and hn and SR.derives(e.args[0], hn[0].result.t):
+                        sets.setdefault(m_.group(1), []).append(e)
+                one = lambda k: sets.get(k, [None])[0] if len(sets.get(k, [])) == 1 else None  # noqa: E731
+                # alg
+                a = one("set_alg")
+                has_call = lambda v, suffix: any(isinstance(x, tuple) and x[:1] == ("call",) and x[1].endswith(suffix) and SR.derives(x, METHOD) for x in sym.subterms(sym.term(v)))  # noqa: E731
+                no_alg = any(a_[0] == "variant" and c_ == "None" and isinstance(a_[1], tuple) and a_[1][:1] == ("call",) and a_[1][1].endswith("Jwk::alg") for (a_, c_, _, _) in q.decisions)
+                if no_alg:
+                    # the JWK has no alg: the code parses "" instead, which the oracle may let succeed but JwsAlgorithm::from_str("") cannot
+                    r4.require(a is None or not SR.derives(a.args[1], ("param", "o_kid")), (fn, "alg-source"), "alg is taken from the options")
+                    continue
+                r4.require(a is not None and has_call(a.args[1], "Jwk::alg"), (fn, "alg-source"), "alg is not set exactly once from the resolved method's JWK")
+                # kid
+                k = one("set_kid")
+                if cname == "all-set":
+                    r4.require(k is not None and SR.pure(k.args[1], ("param", "o_kid")), (fn, "kid-source"), "kid is not `options.kid` when configured")
+                else:
+                    r4.require(k is not None and has_call(k.args[1], "VerificationMethod::id"), (fn, "kid-source"), "kid is not the resolved method's id when options.kid is unset: %s" % (sym.fmt(sym.term(k.args[1])) if k else None))
+                # typ
+                t = one("set_typ")
+                r4.require(t is not None and ((cname == "all-set" and SR.pure(t.args[1], ("param", "o_typ"))) or (cname != "all-set" and t.args[1] == "JWT")), (fn, "typ-default"), "typ is not options.typ else \"JWT\" (%s options)" % cname)
+                # b64 / crit
+                b, c = sets.get("set_b64", []), sets.get("set_crit", [])
+                if cname == "all-set":
+                    okb = len(b) == 1 and b[0].args[1] is False and len(c) == 1
+                    r4.require(okb, (fn, "b64-crit-pair"), "with b64 = Some(false) the header does not get set_b64(false) and set_crit exactly once each")
+                    if len(c) == 1:
+                        cv = c[0].args[1]
+                        r4.require(isinstance(cv, list) and cv == ["b64"], (fn, "crit-value"), "crit is not [\"b64\"]: %s" % (cv,))
+                else:
+                    r4.require(not b and not c, (fn, "b64-only-false"), "b64/crit are set although options.b64 is %s" % ("Some(true)" if cname == "b64-true" else "None"))
+                for name_, opt in (("set_nonce", "o_nonce"), ("set_url", "o_url"), ("set_cty", "o_cty"), ("set_custom", "o_custom")):
+                    e = sets.get(name_, [])
+                    if cname == "all-set":
+                        r4.require(len(e) == 1 and SR.pure(e[0].args[1], ("param", opt)), (fn, name_, "source"), "%s is not copied from options" % name_)
+                    else:
+                        r4.require(not e, (fn, name_), "%s is set although the option is unset" % name_)
+                j_ = sets.get("set_jwk", [])
+                r4.require((cname == "all-set" and len(j_) == 1 and SR.derives(j_[0].args[1], METHOD)) or (cname != "all-set" and not j_), (fn, "set_jwk"), "jwk is not attached exactly under options.attach_jwk")
+                # storage chain
+                md = [e for e in q.calls(r"MethodDigest::new$") if q.succeeded(e) is True]
+                r4.require(len(md) == 1 and SR.pure(md[0].args[0], METHOD), (fn, "digest-method"), "the key id is not looked up from the digest of the resolved method")
+                gk = [e for e in q.calls(r"KeyIdStorage::get_key_id$") if q.succeeded(e) is True]
+                if r4.require(len(gk) == 1, (fn, "get_key_id"), "get_key_id ✓ not called exactly once"):
+                    r4.require(bool(md) and SR.pure(gk[0].args[1], ("payload", md[0].result.t, "Ok", 0)), (fn, "get_key_id-arg"), "get_key_id is not given the method digest")
+                enc = [e for e in q.calls(r"CompactJwsEncoder::new_with_options$") if q.succeeded(e) is True]
+                if r4.require(len(enc) == 1, (fn, "encoder"), "encoder not constructed exactly once"):
+                    r4.require(SR.pure(enc[0].args[0], ("param", "payload")), (fn, "encoder-payload"), "the encoder is not given the payload parameter")
+                    r4.require(bool(hn) and SR.pure(enc[0].args[1], hn[0].result.t), (fn, "encoder-header"), "the encoder is not given the assembled header")
+                    eo = enc[0].args[2]
+                    want_det = cname == "all-set"
+                    r4.require(isinstance(eo, sym.V) and eo.name == ("Detached" if want_det else "NonDetached"), (fn, "detached"), "options.detached_payload does not select CompactJwsEncodingOptions::Detached (%s options: %s)" % (cname, eo))
+                    ENCV = ("payload", enc[0].result.t, "Ok", 0)
+                    sg = [e for e in q.calls(r"JwkStorage::sign$") if q.succeeded(e) is True]
+                    if r4.require(len(sg) == 1, (fn, "sign"), "sign ✓ not called exactly once"):
+                        r4.require(bool(gk) and SR.pure(sg[0].args[1], ("payload", gk[0].result.t, "Ok", 0)), (fn, "sign-key"), "the signing key id is not the one recorded for this method")
+                        dt = sym.term(sg[0].args[2])
+                        r4.require(isinstance(dt, tuple) and dt[:1] == ("call",) and dt[1].endswith("CompactJwsEncoder::signing_input") and SR.pure(dt[2][0], ENCV), (fn, "sign-data"), "the data signed is not jws_encoder.signing_input(): %s" % sym.fmt(dt))
+                        r4.require(SR.derives(sg[0].args[3], METHOD), (fn, "sign-jwk"), "the public key handed to sign is not the resolved method's JWK")
+                        ij = q.calls(r"CompactJwsEncoder::into_jws$")
+                        r4.require(len(ij) == 1 and SR.pure(ij[0].args[0], ENCV) and SR.pure(ij[0].args[1], ("payload", sg[0].result.t, "Ok", 0)) and SR.derives(q.ret, ij[0].result.t), (fn, "returns"), "create_jws does not return jws_encoder.into_jws(&signature)")
+            r4.site("create_jws with %s options: header setters, storage chain and result decided on %d accepting path(s)" % (cname, len(oks)))
+    r4.floor(3)
 
     # ------------------------------------------------------------------ R5 verification side used by the round trip (shared with C03-R6)
     r5 = R.rule("C08-R5", "T2+T3+T6", "CoreDocument::verify_jws resolves kid within the configured scope and requires full nonce equality (a token never verifies under a different nonce or an excluding scope)")
@@ -408,3 +439,11 @@ def run(F, R, tier):
                 "computed over an encoding of the payload the decoder will not reproduce")
     L.depends_on(r6, F, tier, ["C11-R5"], "all recipients of one general JWS agree on b64")
     r6.floor(1)
+
+    # ------------------------------------------------------------------ R7 the decoding half of the round trip
+    r7 = R.rule("C08-R7", "T2", "what the encoders emit decodes and verifies to what was signed only while the decoder reads b64 and alg from the protected header it was given, "
+                "hands back the payload by the same b64 rule the encoder applied (C01-R2/R4), and verify_jws resolves the signing method by the document's resolution "
+                "rules in the configured scope (C04-R5/R7)")
+    L.depends_on(r7, F, tier, ["C01-R2", "C01-R4"], "the decoder undoes exactly the payload encoding the encoder chose from the protected b64")
+    L.depends_on(r7, F, tier, ["C04-R5", "C04-R7"], "verify_jws finds the method create_jws signed with, and only within the configured scope")
+    r7.floor(2)
